@@ -77,7 +77,7 @@ func c07original() (err error, code string, wantStatus int, detail json.RawMessa
 	case 1:
 		err = fmt.Errorf("some context: %w", base)
 	default:
-		statuses := []int{400, 404, 409, 416, 418, 429, 500, 503, 599}
+		statuses := []int{400, 404, 409, 416, 418, 429, 500, 503, 599, 401, 403, 405, 412, 499, 501} // (416 stays at index 3: the known-finding predicates name it)
 		st := statuses[verifChoose("wrapStatus", len(statuses))]
 		err = ociregistry.NewHTTPError(base, st, nil, nil)
 		if w == 3 {
